@@ -64,3 +64,10 @@ func OTwindows(p *load.Program, run *report.Run) {
 	lints.WindowAlignment(p, run, []string{"ot"}, nil)
 	run.Floor("stride-loops", 6)
 }
+
+// C10take: the take-the-remainder rule over the GMW triple pool.
+func C10take(p *load.Program, run *report.Run) {
+	run.Rule("take-remainder", "a loop `for acc < total` that accumulates `acc += take(...)` asks each take for the remainder total-acc, so the units consumed from the source depend on total only, not on how full the source was")
+	lints.RemainingRequest(p, run, []string{"gmw"})
+	run.Floor("take-loops", 1)
+}
